@@ -321,7 +321,8 @@ def stream_stored(ctx, res, n):
             ("no-method", {"method": None, "ciphertext": good_aes}), ("no-method", {}),
             ("bad-method", {"method": "rot13", "ciphertext": good_aes}), ("bad-method", {"method": "AES", "ciphertext": good_aes}),
             ("bad-method", {"method": 5, "ciphertext": good_aes}), ("bad-method", {"method": True, "ciphertext": good_aes}),
-            ("bad-ct-type", {"method": "aes"}), ("bad-ct-type", with_ct(None)), ("bad-ct-type", with_ct(5)), ("bad-ct-type", with_ct([good_aes])),
+            ("bad-ct-type", {"method": "aes"}), ("bad-ct-type", {"method": "xor"}), ("bad-ct-type", {"method": "best"}), ("bad-ct-type", {"method": "xor", "ciphertext": None}),
+            ("bad-ct-type", {"method": "xor", "cipher_text": "QUJD"}), ("bad-ct-type", with_ct(None)), ("bad-ct-type", with_ct(5)), ("bad-ct-type", with_ct([good_aes])),
             ("bad-ct-type", with_ct(good_aes.encode())), ("bad-ct-type", with_ct(bytearray(good_aes.encode()))),
             ("bad-ct-type", {"method": "xor", "ciphertext": base64.b64encode(b"abc")}), ("bad-ct-type", with_ct(1.5)), ("bad-ct-type", with_ct(True)),
             ("bad-b64", with_ct("A")), ("bad-b64", with_ct("AAAAA")), ("bad-b64", with_ct("QQ=")), ("bad-b64", with_ct("Q")),
